@@ -111,7 +111,7 @@ func c01(e *Env) {
 	r.Explain("Oracle: lib.Decode(lib.Encode(v)) ≡ v' where v' is v with self-computed length/checksum replaced by independently recomputed values (own byte-sum / bitwise CRC-32 over the emitted image); encode error, decode error, panic, or bytes left in the buffer also refute. ≡ is bit-exact on numbers (floats by bit pattern), byte-exact on text, nil list ≡ empty list, interface fields by dynamic type and content.")
 	r.Assume("the pinned schema is used only to stay inside the canonical domain; the comparison itself is reflection over the library's own structs", "values not generated are not covered")
 	types := e.Types()
-	n := e.N(400, 20000)
+	n := e.N(400, 100000)
 	feats := newFeatAcc()
 	perType := map[string]int{}
 	var keysForced int64
